@@ -157,7 +157,16 @@ func checkClosedResultZero(c *Ctx, r *Report, rule string) {
 				bad = fmt.Sprintf("the worker is started with a context that ends by itself (context.%s at %s) and can leave without sending once it is over: it then closes the result channel while %s is still waiting, the receive yields the zero value and an empty answer is recorded as a success instead of the timeout error", o.Name(), c.Pos(call.Pos()), shortFn(wi.Spawner))
 			}
 		}
-		_ = sendless
+		// (c) a send-less exit that is not taken because a context is over at all (the connection looks dead, a counter ran
+		// out, ...): the channel is closed under the spawner's feet for a reason the spawner does not know about
+		if bad == "" {
+			rr2 := reachFrom(wi.Worker, nil, isSend, func(bb *ssa.BasicBlock, si int) bool { return !ctxOverEdge(c, bb, si, 0) })
+			for _, ret := range sendless {
+				if rr2.visited[ret] {
+					bad = fmt.Sprintf("the worker can leave at %s without sending although no context is over (it gives up for a reason of its own); it then closes the result channel, the spawner's receive yields the zero value and an empty answer is recorded as a success instead of an error", posOr(c, ret, wi.Worker))
+				}
+			}
+		}
 		if bad == "" {
 			r.OK(rule, construct, pos, "the worker's context is cancel-only: it leaves without sending only after the spawner's deferred cancel, when nobody receives any more")
 		} else {
@@ -1195,4 +1204,378 @@ func patternOfAnyField(c *Ctx, f *types.Var) (string, ssa.Instruction) {
 		})
 	}
 	return pat, at
+}
+
+// ---- C19/C14: no cutset trim where a prefix or suffix is meant -------------------------------------------------------
+//
+// strings.Trim / TrimLeft / TrimRight (and their bytes twins) take a *set* of characters. Handed a multi-character
+// constant such as "~/" they strip every leading '~' and '/' -- "~/~lab/config" loses the tilde of its first component,
+// and the option lands on another file. Wherever the library hands these functions a constant cutset of two or more
+// distinct characters that are not all white space, a prefix / suffix operation was meant.
+
+func checkNoCutsetForPrefix(c *Ctx, r *Report, rule string) {
+	n := 0
+	var bad []string
+	badPos := ""
+	for _, fn := range c.LibFns {
+		for _, ci := range callInstrs(fn) {
+			call, ok := ci.(*ssa.Call)
+			if !ok {
+				continue
+			}
+			o := CalleeObj(call)
+			if o == nil || o.Pkg() == nil || (o.Pkg().Path() != "strings" && o.Pkg().Path() != "bytes") {
+				continue
+			}
+			if o.Name() != "Trim" && o.Name() != "TrimLeft" && o.Name() != "TrimRight" {
+				continue
+			}
+			if len(call.Call.Args) != 2 {
+				continue
+			}
+			n++
+			cut, isC := constString(call.Call.Args[1])
+			if !isC {
+				continue
+			}
+			distinct := map[rune]bool{}
+			allSpace := true
+			for _, ch := range cut {
+				distinct[ch] = true
+				if ch != ' ' && ch != '\t' && ch != '\n' && ch != '\r' {
+					allSpace = false
+				}
+			}
+			if len(distinct) >= 2 && !allSpace {
+				bad = append(bad, fmt.Sprintf("%s.%s(…, %q) in %s at %s", o.Pkg().Name(), o.Name(), cut, shortFn(fn), c.Pos(call.Pos())))
+				if badPos == "" {
+					badPos = c.Pos(call.Pos())
+				}
+			}
+		}
+	}
+	sort.Strings(bad)
+	construct := "no character-set trim with a multi-character constant"
+	if len(bad) > 0 {
+		r.Bad(rule, construct, badPos, strings.Join(bad, "; ")+": the second argument is a set of characters, not a prefix or suffix -- every leading (trailing) character of the set is removed, so a value whose own first characters belong to the set (a home-relative path whose first component begins with '~') is altered and the setting lands on something else than what the caller named")
+	} else {
+		r.OK(rule, construct, "-", fmt.Sprintf("%d Trim / TrimLeft / TrimRight calls examined", n))
+	}
+}
+
+// ---- C19/C17: a number of seconds is scaled before it becomes a Duration -------------------------------------------
+//
+// time.Duration(f) * time.Second with f a float converts first: the fractional part is gone before the multiplication
+// (0.75 s becomes 0, which for a timeout means "expired"). Wherever the library converts a float to an integer type
+// and multiplies the result by a constant, the scaling has to come first. Library-wide, so that the conversion may sit
+// in any helper.
+
+func checkFloatScaledBeforeConversion(c *Ctx, r *Report, rule string) {
+	n := 0
+	var bad []string
+	badPos := ""
+	for _, fn := range c.LibFns {
+		allInstrs(fn, func(in ssa.Instruction) {
+			cv, ok := in.(*ssa.Convert)
+			if !ok {
+				return
+			}
+			from, okF := cv.X.Type().Underlying().(*types.Basic)
+			to, okT := cv.Type().Underlying().(*types.Basic)
+			if !okF || !okT || from.Info()&types.IsFloat == 0 || to.Info()&types.IsInteger == 0 {
+				return
+			}
+			n++
+			// already a product (f * unit)? then the scaling came first
+			if bo, isBo := cv.X.(*ssa.BinOp); isBo && bo.Op == token.MUL {
+				return
+			}
+			for _, ref := range *cv.Referrers() {
+				if bo, isBo := ref.(*ssa.BinOp); isBo && bo.Op == token.MUL {
+					other := bo.Y
+					if other == ssa.Value(cv) {
+						other = bo.X
+					}
+					if k, isC := constInt(other); isC && k > 1 {
+						bad = append(bad, fmt.Sprintf("%s at %s", shortFn(fn), c.Pos(cv.Pos())))
+						if badPos == "" {
+							badPos = c.Pos(cv.Pos())
+						}
+					}
+				}
+			}
+		})
+	}
+	sort.Strings(bad)
+	construct := "floats are scaled before they are converted to an integer type"
+	if len(bad) > 0 {
+		r.Bad(rule, construct, badPos, "a float is converted to an integer type and only then multiplied by a constant ("+strings.Join(bad, "; ")+"): the fractional part is lost before the scaling -- a definition's `timeout-ops: 0.75` becomes 0 (expired at once), `read-delay: 0.0005` becomes 0")
+	} else {
+		r.OK(rule, construct, "-", fmt.Sprintf("%d float-to-integer conversions examined", n))
+	}
+}
+
+// ---- C19: the verdict of an option is looked at inside the apply loop and nowhere else ------------------------------
+//
+// The constructors tolerate ErrIgnoredOption inside their apply loops. The variable that held an option's verdict must
+// not be tested again behind the loop: a later `if err != nil` that can still see the last option's (tolerated)
+// ErrIgnoredOption turns "the last option in the list was not for this object" into a failed constructor -- the
+// outcome then depends on the position of the options.
+
+func checkOptionVerdictNotReexamined(c *Ctx, r *Report, rule string) {
+	n := 0
+	for _, fn := range constructorScope(c) {
+		k := 0
+		for _, ci := range callInstrs(fn) {
+			call, ok := ci.(*ssa.Call)
+			if !ok || call.Call.IsInvoke() || call.Call.StaticCallee() != nil {
+				continue
+			}
+			nt, isNamed := call.Call.Value.Type().(*types.Named)
+			if !isNamed || nt.Obj().Name() != "Option" || !inLoop(call.Block()) {
+				continue
+			}
+			hdr := loopHeaderOf(call.Block())
+			if hdr == nil {
+				continue
+			}
+			loop := loopBlocks(hdr)
+			n++
+			k++
+			construct := fmt.Sprintf("%s option call #%d: verdict examined inside the apply loop only", shortFn(fn), k)
+			// every value the verdict can flow into through phis
+			flows := map[ssa.Value]bool{call: true}
+			work := []ssa.Value{call}
+			for len(work) > 0 {
+				v := work[len(work)-1]
+				work = work[:len(work)-1]
+				if v.Referrers() == nil {
+					continue
+				}
+				for _, ref := range *v.Referrers() {
+					if ph, isPhi := ref.(*ssa.Phi); isPhi && !flows[ph] {
+						flows[ph] = true
+						work = append(work, ph)
+					}
+				}
+			}
+			bad := ""
+			allInstrs(fn, func(in ssa.Instruction) {
+				iff, isIf := in.(*ssa.If)
+				if !isIf || loop[iff.Block()] {
+					return
+				}
+				if x, _, isNil := nilCheck(iff.Cond); isNil && flows[x] {
+					bad = c.Pos(iff.Cond.Pos())
+				}
+			})
+			if bad != "" {
+				r.Bad(rule, construct, bad, "behind the apply loop the constructor tests an error variable that can still hold the verdict of the last option: when that option was (rightly) ignored by this object its ErrIgnoredOption is now taken for a failure -- the same option list succeeds or fails depending on which option comes last")
+			} else {
+				r.OK(rule, construct, c.Pos(call.Pos()), "")
+			}
+		}
+	}
+	if n == 0 {
+		r.Unk(rule, "apply loops", "-", "no option call inside a loop found in the constructors")
+	}
+}
+
+// ---- C04/C12/C17: the send-command step of a platform hook is the driver's own plain SendCommand --------------------
+//
+// A network definition's `driver.send-command` step must go through (*network.Driver).SendCommand -- the method that
+// first brings the device to the default desired level -- and not through the embedded generic driver's method, and it
+// passes no per-operation option of its own (an eager send leaves the prompt of that command unread in the queue, and the
+// next dialogue is paced by the leftover instead of by the device).
+
+func checkOnXSendCommand(c *Ctx, r *Report, rule string) {
+	for _, sp := range [][2]string{{"asNetworkOnX", "driver/network"}, {"asGenericOnX", "driver/generic"}} {
+		outer := c.LookupFunc("platform", "onXDefinitions", sp[0])
+		if outer == nil {
+			r.Anchor(rule, "(*platform.onXDefinitions)."+sp[0])
+			continue
+		}
+		n := 0
+		for _, fn := range append([]*ssa.Function{outer}, AnonFuncsDeep(outer)...) {
+			for _, ci := range callInstrs(fn) {
+				call, ok := ci.(*ssa.Call)
+				if !ok {
+					continue
+				}
+				callee := call.Call.StaticCallee()
+				if callee == nil || callee.Name() != "SendCommand" || callee.Signature.Recv() == nil {
+					continue
+				}
+				n++
+				construct := fmt.Sprintf("%s send-command step #%d", sp[0], n)
+				recvPkg := ""
+				if pt, isP := callee.Signature.Recv().Type().(*types.Pointer); isP {
+					if nt, isN := pt.Elem().(*types.Named); isN && nt.Obj().Pkg() != nil {
+						recvPkg = nt.Obj().Pkg().Path()
+					}
+				}
+				var probs []string
+				if !strings.HasSuffix(recvPkg, sp[1]) {
+					probs = append(probs, fmt.Sprintf("the step calls the SendCommand of %s, not the one of %s: the command is typed at whatever level the device happens to be in (the network driver's method is the one that first acquires the default desired level)", recvPkg, sp[1]))
+				}
+				if len(call.Call.Args) >= 3 {
+					if !isNilConst(call.Call.Args[len(call.Call.Args)-1]) {
+						probs = append(probs, "the step passes per-operation options of its own to SendCommand (e.g. an eager send, which leaves that command's prompt unread in the queue: the next dialogue is then paced by the leftover prompt, not by the device)")
+					}
+				}
+				if len(probs) > 0 {
+					r.Bad(rule, construct, c.Pos(call.Pos()), strings.Join(probs, "; "))
+				} else {
+					r.OK(rule, construct, c.Pos(call.Pos()), "the driver's own SendCommand, no extra options")
+				}
+			}
+		}
+		if n == 0 && sp[0] == "asNetworkOnX" {
+			r.Unk(rule, sp[0]+" send-command step", c.Pos(outer.Pos()), "no SendCommand call found in "+sp[0])
+		} else if n == 0 {
+			r.OK(rule, sp[0]+" has no send-command step", c.Pos(outer.Pos()), "")
+		}
+	}
+}
+
+// ---- C03: a framed request goes out through sendRPC only -------------------------------------------------------------
+//
+// sendRPC is where a serialized request becomes one complete message on the wire: framed bytes, a return, and under 1.1
+// one more return (the LF that completes the end-of-chunks marker). Any other place that hands framedXML to the channel
+// re-implements that sequence -- and a bare Channel.Write of a 1.1 message leaves the marker unterminated.
+
+func checkFramedOnlyThroughSendRPC(c *Ctx, r *Report, rule string) {
+	send := c.LookupFunc("driver/netconf", "Driver", "sendRPC")
+	if send == nil {
+		r.Anchor(rule, "(*netconf.Driver).sendRPC")
+		return
+	}
+	// functions that are called (statically) by sendRPC only
+	onlyFromSend := func(f *ssa.Function) bool {
+		if f == send {
+			return true
+		}
+		if f.Object() == nil || f.Object().Exported() {
+			return false
+		}
+		n := 0
+		for _, g := range c.LibFns {
+			if len(staticCallsTo(g, f)) > 0 {
+				if g != send && g.Parent() != send {
+					return false
+				}
+				n++
+			}
+		}
+		return n > 0
+	}
+	n := 0
+	for _, fn := range c.LibFns {
+		if fn.Pkg == nil || !strings.HasSuffix(fn.Pkg.Pkg.Path(), "driver/netconf") {
+			continue
+		}
+		for _, ci := range callInstrs(fn) {
+			call, ok := ci.(*ssa.Call)
+			if !ok {
+				continue
+			}
+			callee := call.Call.StaticCallee()
+			if callee == nil || callee.Signature.Recv() == nil || !strings.HasPrefix(callee.Name(), "Write") || callee.Pkg == nil || !strings.HasSuffix(callee.Pkg.Pkg.Path(), "/channel") {
+				continue
+			}
+			framed := false
+			for _, a := range call.Call.Args {
+				if f, _, isLoad := fieldLoad(a); isLoad && f != nil && f.Name() == "framedXML" {
+					framed = true
+				}
+			}
+			if !framed {
+				continue
+			}
+			n++
+			top := fn
+			for top.Parent() != nil {
+				top = top.Parent()
+			}
+			construct := fmt.Sprintf("framed request written in %s", shortFn(top))
+			if onlyFromSend(top) {
+				r.OK(rule, construct, c.Pos(call.Pos()), "inside sendRPC")
+			} else {
+				r.Bad(rule, construct, c.Pos(call.Pos()), "a serialized request is handed to the channel outside sendRPC: the write sequence that makes it one complete message (framed bytes, a return, and under 1.1 the further return that completes the end-of-chunks marker) is not applied, so under 1.1 the message stays unterminated on the wire")
+			}
+		}
+	}
+	if n == 0 {
+		r.Unk(rule, "framed request writes", "-", "no write of framedXML found in the NETCONF driver")
+	}
+}
+
+// ctxOverEdge: taking successor succIdx of block b means "a context is over": the branch tests ctx.Err() (non-nil on this
+// edge), or it is the `case <-ctx.Done()` of a select, or it tests the verdict of a same-package helper all of whose
+// returns with that verdict can only be reached over such an edge (one `ok` result handed up, two levels at most).
+func ctxOverEdge(c *Ctx, b *ssa.BasicBlock, succIdx int, depth int) bool {
+	cond := ifCond(b)
+	if cond == nil || len(b.Succs) != 2 {
+		return false
+	}
+	truthOfEdge := succIdx == 0
+	if x, nonNilOnTrue, isNil := nilCheck(cond); isNil && nonNilOnTrue == truthOfEdge {
+		if call, ok := x.(*ssa.Call); ok && call.Call.IsInvoke() && call.Call.Method.Name() == "Err" && isContextType(call.Call.Value.Type()) {
+			return true
+		}
+	}
+	v, neg := unwrapNot(cond)
+	truth := truthOfEdge != neg
+	// select case on ctx.Done()
+	if bo, ok := v.(*ssa.BinOp); ok && bo.Op == token.EQL && truth {
+		if ex, isEx := bo.X.(*ssa.Extract); isEx && ex.Index == 0 {
+			if sel, isSel := ex.Tuple.(*ssa.Select); isSel {
+				if k, isC := constInt(bo.Y); isC && int(k) < len(sel.States) {
+					if call, isCall := sel.States[k].Chan.(*ssa.Call); isCall && call.Call.IsInvoke() && call.Call.Method.Name() == "Done" && isContextType(call.Call.Value.Type()) {
+						return true
+					}
+				}
+			}
+		}
+	}
+	if depth >= 2 {
+		return false
+	}
+	var hc *ssa.Call
+	idx := 0
+	switch x := v.(type) {
+	case *ssa.Extract:
+		if cl, ok := x.Tuple.(*ssa.Call); ok {
+			hc, idx = cl, x.Index
+		}
+	case *ssa.Call:
+		hc = x
+	}
+	if hc == nil {
+		return false
+	}
+	h := hc.Call.StaticCallee()
+	if h == nil || h.Pkg != b.Parent().Pkg || len(h.Blocks) == 0 {
+		return false
+	}
+	rr := reachFrom(h, nil, nil, func(bb *ssa.BasicBlock, si int) bool { return !ctxOverEdge(c, bb, si, depth+1) })
+	some := false
+	for _, bb := range h.Blocks {
+		ret, ok := bb.Instrs[len(bb.Instrs)-1].(*ssa.Return)
+		if !ok || idx >= len(ret.Results) {
+			continue
+		}
+		k, isC := ret.Results[idx].(*ssa.Const)
+		if !isC {
+			return false
+		}
+		if isConstTrue(k) != truth {
+			continue
+		}
+		some = true
+		if rr.visited[ret] {
+			return false // this verdict can be returned without any context being over
+		}
+	}
+	return some
 }
